@@ -22,7 +22,7 @@ import (
 // H_C18_ReadOnly: write-set reduction of C18.  A value is parsed (or built), every object that exists is frozen, then one read-only exported operation (generated list: all exported methods except Set*/Add*/With*/Build/Remove*) runs: it must not write to any pre-existing object (receiver graph, input buffer) nor to package-level state.  If no read-only operation writes shared memory, any number of concurrent readers are race-free and each returns what it returns alone.  Explored under both append-growth policies.
 //
 //verif:props C18
-//verif:policies tight roomy
+//verif:policies tight roomy runtime
 //verif:witness swept
 //verif:fanout 400
 func H_C18_ReadOnly() {
@@ -134,7 +134,20 @@ func H_C18_ReadOnly() {
 			nd.Cover("swept")
 		}
 	case 11:
-		v, _, errs := data.ReadMapping(nd.Bytes(nd.IntRange(2, 8)))
+		var mb []byte
+		if nd.Bool() {
+			mb = nd.Bytes(nd.IntRange(2, 8))
+		} else {
+			// two or three one-character keys in any order (the wire parser does not require sorted keys)
+			np := nd.IntRange(2, 3)
+			mb = nd.Bytes(2 + 5*np)
+			pin(mb, 0, 0, byte(5*np))
+			for j := 0; j < np; j++ {
+				pin(mb, 2+5*j, 1)
+				pin(mb, 2+5*j+2, '=', 0, ';')
+			}
+		}
+		v, _, errs := data.ReadMapping(mb)
 		if len(errs) == 0 {
 			i := nd.IntRange(0, n_sweepRO_data_Mapping-1)
 			nd.Freeze()
